@@ -19,6 +19,7 @@ V1, V2 = "1", "2"
 STEP_CLAUSES = {"wrong_state", "encoding_differs_from_list_model"}
 ACCEPT_CLAUSES = {"accepted_but_must_reject", "rejected_but_must_succeed"}
 VIEW_CLAUSES = {"child_listed_twice", "child_listed_by_two_parents", "iter_len_disagree", "byname_view_disagrees",
+                "listed_child_not_contained", "removed_child_still_contained",
                 "byname_len_disagrees", "parent_pointer", "mixed_level_or_version"}
 READ_CLAUSES = {"read_raised", "read_changed_children", "read_changed_encoding", "read_changed_validation"}
 ATOMIC_CLAUSES = {"rejected_not_atomic"}
@@ -159,6 +160,13 @@ class World(object):
         self.held -= set(self.ids[id(o)] for o in listed)
 
     def state(self):
+        now = self.listed()
+        nowids = set(id(o) for o in now)
+        prev = getattr(self, "_prev_listed", [])
+        heldobjs = set(id(self.objs[a]) for a in self.held if a in self.objs)
+        # objects that were listed a moment ago and are listed no more (deleted, replaced, popped): for the containment views
+        self.gone = ([o for o in prev if id(o) not in nowids] + getattr(self, "gone", []))[:4]
+        self._prev_listed = now
         self.assign_ids()
         self.prev_used = set(self.ids.values())
         kids = [[self.ids[id(o)] for o in self.P[p].children] for p in (1, 2)]
@@ -191,8 +199,26 @@ class World(object):
                 par.append([self.ids.get(id(o), 0), 1 if o.parent is self.P[1] else 2 if o.parent is self.P[2] else 0])
                 lvl.append([self.ids.get(id(o), 0), bool(o.validation_level == P.validation_level and o.version == P.version)])
             enc.append(cps(P.to_er7()))
+        # containment: every listed child is `in` the list and `in` its by-name view; a child that is gone is in neither
+        contains, stale = [], []
+        for p in (1, 2):
+            P = self.P[p]
+            for o in P.children:
+                try:
+                    px = P.children.get(o.name) if o.name else None
+                    contains.append([bool(o in P.children), bool(px is None or o in px)])
+                except Exception:
+                    contains.append([False, False])
+            for g in getattr(self, "gone", []):
+                if any(g is x for x in P.children):
+                    continue
+                try:
+                    px = P.children.get(g.name) if g.name else None
+                    stale.append([bool(g in P.children), bool(px is not None and g in px)])
+                except Exception:
+                    stale.append([False, False])
         obs = {"names": names, "views": views, "vlens": vlens, "iter": it, "lens": lens, "par": par, "lvl": lvl,
-               "enc": enc}
+               "enc": enc, "contains": contains, "stale": stale}
         if deep:
             val = []
             for p in (1, 2):
